@@ -187,6 +187,7 @@ def e1_report(rep: Report, module, cases, stats, completed, levels, bound, sampl
         "levels": levels,
         "exhaustive": completed >= bound,
         "divergences": stats.divergences,
+        "divergences_recovered_by_reexploring_the_parent": getattr(stats, "divergences_recovered", 0),
         "reexecuted_lower_levels": stats.reexecuted,
         "states_capped": stats.states_capped,
     })
